@@ -363,8 +363,10 @@ class Spec(core.PropSpec):
         import kappadata.copying.copying_utils as cu
         out = core.Outcome()
         w = plan["world"]
-        saved = cu.joblib
-        cu.joblib = simfs.FakeJoblib
+        from simkit import simproc  # noqa: F401  (installs the thread-pool seam: a pool of threads instead of joblib stays simulated)
+        saved = getattr(cu, "joblib", None)
+        if saved is not None:
+            cu.joblib = simfs.FakeJoblib
         try:
             with simfs.SimMachine() as m:
                 try:
@@ -375,7 +377,8 @@ class Spec(core.PropSpec):
                     return out
                 self._run(plan, w, m, expected, out)
         finally:
-            cu.joblib = saved
+            if saved is not None:
+                cu.joblib = saved
         return out
 
     def _run(self, plan, w, m, expected, out):
@@ -499,8 +502,9 @@ def validate_against_real_fs(n_worlds, seed):
         w["num_workers"] = rng.choice([0, 0, 2])
         fn = copy_folder_from_global_to_local if w["fn"] == "folder" else copy_imagefolder_from_global_to_local
         # --- simulated
-        saved = cu.joblib
-        cu.joblib = simfs.FakeJoblib
+        saved = getattr(cu, "joblib", None)
+        if saved is not None:
+            cu.joblib = simfs.FakeJoblib
         try:
             with simfs.SimMachine() as m:
                 build_source(m, w)
@@ -509,7 +513,8 @@ def validate_against_real_fs(n_worlds, seed):
                 sim_tree = simfs.snapshot(dst)
                 sim_res = repr(att["result"])
         finally:
-            cu.joblib = saved
+            if saved is not None:
+                cu.joblib = saved
         # --- real
         root = tempfile.mkdtemp(prefix="kd_c20_real_")
         try:
